@@ -369,7 +369,11 @@ impl NetcodeServer {
             let packet = Packet::Payload(payload);
             let len = packet.encode(&mut self.out, self.protocol_id, Some((client.sequence, &client.send_key)))?;
             client.sequence += 1;
-            client.last_packet_send_time = self.current_time;
+            // The client only completes the handshake on a keep alive packet: until it is confirmed,
+            // payloads must not postpone the keep alive packets sent by update_client.
+            if client.confirmed {
+                client.last_packet_send_time = self.current_time;
+            }
 
             return Ok((client.addr, &mut self.out[..len]));
         }
